@@ -822,6 +822,11 @@ class Gen7:
             form = r.choice(["all", "allas", "allas-params", "sel", "sel-as", "sel-params"])
             with_params = form.endswith("params")
             body = [label(inm), insn("lda", "imm", ident(["ipar"]) if with_params else num(r.randrange(256))), insn("sta", "dir", ident([inm])), insn("rts")]
+            if form != "all" and r.random() < 0.6:     # (`.import *` would import kk0 and dat as well: a clash with the importer's own)
+                # the imported name is a block that uses other symbols of ITS file, while the importing file has symbols of
+                # the same names with other values: inside the block the file's own symbols are meant
+                body = [const("kk0", num(r.choice([5, 77]))), label("dat"), insn("rts"),
+                        label(inm, [insn("lda", "imm", ident(["ipar"]) if with_params else ident(["kk0"])), insn("jsr", "dir", ident(["dat"])), insn("ldx", "imm", ident(["kk0"])), insn("rts")])]
             files[fn] = body
             params = [const("ipar", num(r.choice([3, 77])))] if with_params else None
             if form == "all":
